@@ -37,7 +37,10 @@ META = dict(
     rule="case = exception graph (1..6 nodes: class kind, argument kinds, args override, unpicklable attribute, raised or not, "
          "cause, context, suppress) run through the three encodings; family 'eq': classes with value-based __eq__ (hand-written "
          "with / without __hash__, always True, raising, @dataclass, local, dynamic) and a path on which two DISTINCT nodes are "
-         "twins (same class, same arguments - equal by ==, not a back-link); family 'seq': one case = 2..5 store / load steps "
+         "twins (same class, same arguments - equal by ==, not a back-link); in every family ~5 % of the nodes (root, cause, "
+         "context, deeper, on cycles) are exceptions whose INSTANCE is falsy (__len__ 0 / __bool__ False: module-level, "
+         "nested, local, type()-created, BaseException / ValueError subclasses, custom __init__, mixin, value-equality, "
+         "dataclass, unpicklable with a picklable falsy base) or has no truth value (bool() raises); family 'seq': one case = 2..5 store / load steps "
          "in ONE process with environment changes between them (generated module unregistered / registered in sys.modules, a "
          "class name deleted / re-published, the not-imported module of type()-created classes appearing, module re-executed or "
          "re-imported, one class re-created by a factory under the same qualified name), each step loading the SAME payload "
@@ -51,7 +54,8 @@ META = dict(
                   "resolution, measured per case in harness/drivers/excser_driver.py with the real functions",
                   "abstraction of a loaded exception (class kind, name, argument forms, link tree) in the same driver"],
     assumptions=["coder round trips are deterministic (the same object round-trips the same way twice)",
-                 "exception objects and classes have default truthiness (no __bool__/__len__), __module__ is a str or None",
+                 "a class' __module__ is a str or None (the truth value of exception OBJECTS is not assumed: classes defining "
+                 "__bool__ / __len__ - falsy instances, bool() raising - are generated at every position and judged in full)",
                  "family 'seq': what a JSON store writes does not depend on sys.modules (json never encodes an exception object "
                  "or resolves a class), so a payload stored earlier is judged with the flags measured at the load; a step that loads "
                  "a payload whose original class OBJECT has been replaced under its name since is compared with the model only",
@@ -69,13 +73,28 @@ CUSTOM = ["Rewrites", "KwOnly", "TwoPos", "ExtraPos", "SubRewrites", "SubTwoPos"
 FIXED = ["UnicodeDecodeError", "JSONDecodeError", "NoResultError", "TaskiqResultTimeoutError", "ExceptionGroup", "OSError2"]
 SHADOW = ["ShadowFn", "ShadowInst", "ShadowExc", "ShadowTwoPos"]
 MIXIN = ["LocalMixin", "LocalMixinArgs", "DynMixin", "ModMixin"]      # finding D10 (repaired in /repo 743840e)
-FALSY = ["FalsyLen", "FalsyBool"]     # finding D11 (known): corpus replay only, never generated, not in the model
+# classes whose INSTANCES are falsy (`__len__` returning 0 / `__bool__` returning False; LenArgs: falsy iff raised without
+# arguments) or whose truth value cannot be taken at all (BoolRaises, LenNegative: bool() raises). Finding D11 (repaired in
+# /repo 18e0da2): ordinary exceptions - generated at every position of the graph (root, cause, context, deeper), in every
+# family, compared with the model and judged by the oracle like everything else (see falsify / falsify_eq / falsify_seq).
+FALSY_FREE = ["FalsyLen", "FalsyBool", "FalsySubVal", "FalsyBase", "LenArgs", "BoolRaises", "LenNegative", "NestedFalsy",
+              "FalsyWithLock", "FalsyStrRaises", "FalsyMixin", "LocalFalsy", "LocalSubFalsy", "LocalSubFalsyVal",
+              "LocalFalsyMixin", "DynFalsy", "DynFalsyHere", "DynFalsyNoMod", "FalsyEq", "LocalTruthySub"]
+# falsy variants with the SAME constructor signature as an ordinary class kind
+FALSY_TWIN = {"TwoPos": "FalsyTwoPos", "SubTwoPos": "FalsyTwoPos", "LocalSubTwoPos": "FalsyTwoPos", "ExtraPos": "FalsyTwoPos",
+              "Rewrites": "FalsyRewrites", "SubRewrites": "FalsyRewrites", "DataHashExc": "FalsyData", "LocalData": "FalsyData"}
+EQ_FALSY_TWIN = {"EqHash": "FalsyEq", "EqNoHash": "FalsyEq", "SubEqVal": "FalsyEq", "LocalEq": "LocalFalsyEq",
+                 "DynEq": "DynFalsyEq", "DataHashExc": "FalsyData", "LocalData": "FalsyData"}
+SEQ_FALSY_TWIN = {"ModLevel": "FalsyLen", "Nested": "NestedFalsy", "ModSubVal": "FalsySubVal", "ModBase": "FalsyBase",
+                  "TwoPos": "FalsyTwoPos", "Rewrites": "FalsyRewrites", "WithLock": "FalsyWithLock", "ModMixin": "FalsyMixin",
+                  "EqHash": "FalsyEq", "DynHere": "DynFalsyHere", "Dyn": "DynFalsy", "DynEq": "DynFalsyEq"}
+FALSY = FALSY_FREE + ["FalsyTwoPos", "FalsyRewrites", "FalsyData", "LocalFalsyEq", "DynFalsyEq"]
 # classes with VALUE-based equality / unusual hashing (family "eq"): two distinct exception objects may compare equal,
 # comparing may raise, hashing may be impossible - the cycle guard must still go by object identity
 EQCLS = ["EqHash", "EqNoHash", "EqTrue", "EqRaises", "SubEqVal", "DataExc", "DataHashExc", "LocalEq", "LocalData", "DynEq",
          "DynEqHere"]
 ARITY = {"DataExc": (2, 2), "DataHashExc": (1, 1), "LocalData": (1, 1), "KwOnly": (1, 1), "TwoPos": (2, 2), "SubTwoPos": (2, 2), "LocalSubTwoPos": (2, 2), "ExtraPos": (2, 2),
-         "Rewrites": (1, 2), "SubRewrites": (1, 2)}
+         "Rewrites": (1, 2), "SubRewrites": (1, 2), "FalsyTwoPos": (2, 2), "FalsyRewrites": (1, 2), "FalsyData": (1, 1)}
 ARITY.update({k: (0, 0) for k in FIXED})
 
 A_NATIVE = ["int", "neg", "zero", "big", "big400", "str", "empty", "uni", "astral", "none", "true", "false", "float",
@@ -84,6 +103,7 @@ A_LOSSY = ["nan", "inf", "ninf", "tuple", "etuple", "intkey", "boolkey", "listna
            "intenum", "mixedkeys", "floatkey"]
 A_NONJSON = ["bytes", "set", "object", "complex", "decimal", "datetime", "class", "type", "excinst", "frozenset", "range",
              "huge", "dictbytes", "circular", "tuplekey"]
+A_FALSYEXC = "falsyexcinst"      # a falsy exception INSTANCE as an argument (substituted for "excinst" by falsify)
 A_NOREPR = ["badrepr", "onlystr"]
 A_NOPICKLE = ["lambda", "lock", "localobj", "gen", "listlambda", "module", "badreprlock", "onlystrlock"]
 A_NOUNPICKLE = ["excbadinit", "reduceloadraises", "setstateraises", "listexcbadinit", "dictsetstate"]   # dumps ok, loads raises
@@ -183,6 +203,66 @@ def gen_eq_case(r):
     return dict(nodes=nodes, family="eq")
 
 
+def to_falsy(r, s, cls):
+    """the node becomes an instance of falsy class kind cls; the arguments stay (cls takes them: same signature / any)"""
+    s["cls"], s["ctor_n"] = cls, ARITY.get(cls, (0, 3))[0]
+    if cls == "LenArgs" and r.random() < .6:
+        s["args"] = []                       # LenArgs is falsy only without arguments
+    if r.random() < .3:
+        s["lock_attr"] = True                # not picklable as it is, a fresh cls(*args) is: the pickle stand-in is FALSY
+    if r.random() < .3:
+        s["raised"] = True
+
+
+def falsify(r, nodes, p=.05, skip=()):
+    """post-pass over a generated graph with its OWN rng (the underlying generator's stream is untouched): each node
+    becomes, with probability p, an exception whose INSTANCE is falsy / has no truth value - at whatever position it is
+    (root, cause, context, on a cycle, shared); an exception instance among the arguments becomes a falsy one likewise"""
+    for s in nodes:
+        s["args"] = [A_FALSYEXC if a == "excinst" and r.random() < .3 else a for a in s["args"]]
+        if r.random() >= p or s["cls"] in skip or s["cls"] in SHADOW or s["cls"] in FIXED or s["cls"] == "KwOnly":
+            continue
+        if s["cls"] in FALSY_TWIN:
+            to_falsy(r, s, FALSY_TWIN[s["cls"]])
+        elif s["cls"] not in ARITY:
+            to_falsy(r, s, r.choice(FALSY_FREE))
+    return nodes
+
+
+def falsify_case(r, case, p=.05):
+    falsify(r, case["nodes"], p)
+    return case
+
+
+def falsify_eq(r, case, p=.2):
+    """family "eq": in a fraction p of the cases every node of a value-equality class becomes its falsy variant
+    (consistently, so that twins stay twins: two DISTINCT, EQUAL and FALSY exceptions on one path); other nodes as in falsify"""
+    if r.random() < p:
+        for s in case["nodes"]:
+            if s["cls"] in EQ_FALSY_TWIN:
+                s["cls"] = EQ_FALSY_TWIN[s["cls"]]
+    falsify(r, case["nodes"], .05, skip=EQCLS + ["FalsyEq", "LocalFalsyEq", "DynFalsyEq", "FalsyData"])
+    return case
+
+
+def falsify_seq(r, case, p=.25):
+    """family "seq": in a fraction p of the groups some switchable class kinds are replaced - in every step and in the
+    environment changes naming them - by their falsy variants (same place: module level / nested / publishable /
+    nowhere.mod), so that falsy classes go through lazy import, reload, replace, delattr like the others"""
+    if r.random() < p:
+        m = {k: v for k, v in sorted(SEQ_FALSY_TWIN.items()) if r.random() < .7}
+        for st in case["steps"]:
+            for s in st.get("nodes", []):
+                if s["cls"] in m:
+                    s["cls"] = m[s["cls"]]
+            for op in st.get("ops", []):
+                if op.get("cls") in m:
+                    op["cls"] = m[op["cls"]]
+    for st in case["steps"]:
+        falsify(r, st.get("nodes", []), .05, skip=SEQ_SWITCHABLE + list(SEQ_FALSY_TWIN.values()))
+    return case
+
+
 def retype(r, s, cls, native=False):
     lo, hi = ARITY.get(cls, (0, 3))
     s["cls"], s["ctor_n"], s["set_args"] = cls, lo, False
@@ -204,8 +284,6 @@ def gen_seq_graph(r):
     n = r.choice([1, 1, 1, 2, 2, 3, 4])
     nodes = [gen_node(r, n, False, False) for _ in range(n)]
     for s in nodes:
-        if s["cls"] in FALSY:
-            retype(r, s, "ModLevel")
         k = r.random()
         if k < .45:
             retype(r, s, r.choice(SEQ_MOD), native=r.random() < .7)
@@ -482,7 +560,7 @@ def sig_of(case, obs, enc, stage):
     return dict(enc=enc, stage=stage, exc=o.get("exc"), msg=o.get("msg", ""), outcome=o["o"],
                 surrogate=any(m["surrogate"] for m in args), surrogate_key=any(m["surrogate_key"] for m in args),
                 mixin_first=bool(not root["exc_rt_pickle"] and first is not None and not first["is_exc"]),
-                falsy_reachable=any(not obs["nodes"][i].get("truthy", True) for i in rs))
+                falsy_reachable=any(not obs["nodes"][i].get("truthy", True) or obs["nodes"][i].get("bool_raises") for i in rs))
 
 
 def surrogate_str_json_text(f):
@@ -509,17 +587,10 @@ def pickle_mixin_base_not_exception(f):
     return s.get("enc") == "pickle" and s.get("outcome") == "notexc" and bool(s.get("mixin_first"))
 
 
-def falsy_exception_in_chain(f):
-    """exactly: a JSON (text or dict) store raises PydanticSerializationError 'Unable to serialize unknown type' and some
-    exception reachable from the root through cause / unsuppressed context is falsy (bool(exc) is False)"""
-    s = f.get("sig") or {}
-    return (s.get("enc") in ("text", "dict") and s.get("stage") == "store" and s.get("exc") == "PydanticSerializationError"
-            and "Unable to serialize unknown type" in s.get("msg", "") and bool(s.get("falsy_reachable")))
-
-
+# (finding D11 `falsy_exception_in_chain` is repaired in /repo 18e0da2: no predicate - falsy exception objects are ordinary
+# inputs, and a failure on one is a VIOLATION like any other)
 SIGNATURES = dict(surrogate_str_json_text=surrogate_str_json_text, surrogate_key_json_dict=surrogate_key_json_dict,
-                  pickle_mixin_base_not_exception=pickle_mixin_base_not_exception,
-                  falsy_exception_in_chain=falsy_exception_in_chain)
+                  pickle_mixin_base_not_exception=pickle_mixin_base_not_exception)
 
 
 # --------------------------------------------------------------------------- run
@@ -568,8 +639,47 @@ def graph_stats(rep, case, obs):
             rep.count("link:context_suppressed")
     if case.get("family") == "eq":
         eq_stats(rep, case, obs)
+    falsy_stats(rep, case, obs, rs)
     rep.count("graph:shared_node", int(any(v > 1 for v in indeg.values())))
     rep.count("graph:cyclic", int(has_cycle(case)))
+
+
+def falsy_stats(rep, case, obs, rs):
+    """how often the input kind "exception object that is falsy / has no truth value" really occurs, and where"""
+    def odd(i):
+        n = obs["nodes"][i]
+        return "bool_raises" if n.get("bool_raises") else None if n.get("truthy", True) else "falsy"
+    here = [i for i in rs if odd(i)]
+    rep.count("falsy:cases_with_falsy_exception_reachable", int(bool(here)))
+    if not here:
+        return
+    for i in here:
+        rep.count("falsy:node:" + odd(i))
+    if odd(0):
+        rep.count("falsy:position:root")
+    found = set()
+    for i in rs:
+        s = case["nodes"][i]
+        for what, j in (("cause", s.get("cause")), ("context_suppressed" if s.get("suppress") else "context", s.get("context"))):
+            if j is not None and odd(j):
+                found.add("falsy:position:" + what)
+                if j == i:
+                    found.add("falsy:self_link")
+        if odd(i) and (s.get("cause") is not None or (s.get("context") is not None and not s.get("suppress"))):
+            found.add("falsy:has_own_cause_or_context")
+    for k in found:
+        rep.count(k)
+    if has_cycle(case):
+        rep.count("falsy:in_cyclic_graph")
+    if case.get("family") in ("eq", "seq"):
+        rep.count("falsy:family:" + case["family"])
+    n = obs["nodes"][0]
+    if not n["exc_rt_pickle"]:            # pickle: which stand-in the cascade takes for the root, and whether it is falsy
+        idx = next((j for j, m in enumerate(n["mro"]) if m["ok_pickle"] and m["is_exc"]), None)
+        if idx is not None and n["mro"][idx].get("cand_falsy"):
+            rep.count("falsy:pickle_nearest_candidate_is_falsy:" + ("same_class" if idx == 0 else "base_class"))
+        elif idx is None and odd(0):
+            rep.count("falsy:pickle_wrapper_for_falsy_root")
 
 
 def eq_stats(rep, case, obs):
@@ -644,7 +754,7 @@ def seq_stats(rep, c, o):
     rep.count("seq:steps:%d" % len(c["steps"]))
 
 
-def explore(ctx, rep, cases, label, use_oracle=True, use_model=True, obs=None):
+def explore(ctx, rep, cases, label, use_oracle=True, obs=None):
     if obs is None:
         obs = C.run_driver(ctx, "excser_driver", cases)
     lits, keep = [], []
@@ -684,8 +794,6 @@ def explore(ctx, rep, cases, label, use_oracle=True, use_model=True, obs=None):
             lits.append(C.cpair(C.clist([c_node(n) for n in so["nodes"]]), C.cn(0), c_outcome(so["enc"]["text"]),
                                 c_outcome(so["enc"]["dict"]), c_outcome(so["enc"]["pickle"])))
             keep.append(c if not seq else dict(c, step=step))
-    if not use_model:        # outside the model's assumptions (finding D11: falsy exception objects): oracle only
-        return False, nfail
     bad, fails, _ = C.coq_eval(ctx, label, COQ_HEADER, lits, COQ_BODY, shard=250)
     rep.corr(label, len(lits), bad, fails, lambda i: keep[i])
     rep.traces += len(lits) - len(bad)
@@ -699,24 +807,29 @@ def run(ctx):
     for name, c in C.load_corpus("C19"):
         before = len(rep.failures)
         explore(ctx, rep, [c], "corpus_" + name.replace(".json", "").replace("-", "_"),
-                use_oracle=c.get("family") != "shadow", use_model=c.get("family") != "falsy")
+                use_oracle=c.get("family") != "shadow")
         for sig, pred in SIGNATURES.items():
             if any(pred(f) for f in rep.failures[before:]):
                 corpus_known[sig] = True
     # family "seq": its driver run (own child processes, every group in a forked child of its own) is started now and
     # collected after the other families - it only waits for process start-up otherwise
     rq = ctx.sub_rng("seq")
-    seq_cases = [gen_seq_case(rq) for _ in range(ctx.n(100, 3000))]
+    rf = ctx.sub_rng("falsy_seq")       # the falsy post-passes draw from their own streams (see falsify)
+    seq_cases = [falsify_seq(rf, gen_seq_case(rq)) for _ in range(ctx.n(100, 3000))]
     pool = ThreadPoolExecutor(1)
     seq_obs = pool.submit(C.run_driver, ctx, "excser_driver", seq_cases, None, 4 if ctx.quick else None)
     r = ctx.sub_rng("gen")
-    cases = [gen_case(r) for _ in range(ctx.n(2000, 60000))]
+    rf = ctx.sub_rng("falsy_main")
+    cases = [falsify_case(rf, gen_case(r)) for _ in range(ctx.n(2000, 60000))]
     broken, _ = explore(ctx, rep, cases, "main")
     rs = ctx.sub_rng("shadow")
-    b2, _ = explore(ctx, rep, [gen_case(rs, shadow=True) for _ in range(ctx.n(200, 4000))], "shadow", use_oracle=False)
+    rf = ctx.sub_rng("falsy_shadow")
+    b2, _ = explore(ctx, rep, [falsify_case(rf, gen_case(rs, shadow=True)) for _ in range(ctx.n(200, 4000))], "shadow",
+                    use_oracle=False)
     broken = broken or b2
     re_ = ctx.sub_rng("eq")
-    b3, _ = explore(ctx, rep, [gen_eq_case(re_) for _ in range(ctx.n(250, 6000))], "eq")
+    rf = ctx.sub_rng("falsy_eq")
+    b3, _ = explore(ctx, rep, [falsify_eq(rf, gen_eq_case(re_)) for _ in range(ctx.n(250, 6000))], "eq")
     broken = broken or b3
     b4, _ = explore(ctx, rep, seq_cases, "seq", obs=seq_obs.result())
     pool.shutdown()
@@ -725,7 +838,8 @@ def run(ctx):
     unexplained = [f for f in rep.failures if not any(p(f) for name, p in SIGNATURES.items() if name in live)]
     if (broken or any(not o["ok"] for o in rep.obligations)) and not unexplained:
         r2 = ctx.sub_rng("search")
-        explore(ctx, rep, [gen_case(r2) for _ in range(ctx.n(8000, 60000))], "search")
+        rf = ctx.sub_rng("falsy_search")
+        explore(ctx, rep, [falsify_case(rf, gen_case(r2), .08) for _ in range(ctx.n(8000, 60000))], "search")
     return rep.finish(SIGNATURES, corpus_known)
 
 
@@ -764,9 +878,6 @@ def replay(ctx, path):
                 print("  statement holds" if judged else "  not judged by the oracle")
         lits.append(C.cpair(C.clist([c_node(n) for n in so["nodes"]]), C.cn(0), c_outcome(so["enc"]["text"]),
                             c_outcome(so["enc"]["dict"]), c_outcome(so["enc"]["pickle"])))
-    if c.get("family") == "falsy":
-        print("model: not applicable (falsy exception objects are outside the model's assumptions, finding D11)")
-        return rc
     body = ("Eval vm_compute in (map (fun '(g, r, _, _, _) => (roundtrip EText g r, roundtrip EDict g r, roundtrip EPickle g r)) cases).\n"
             + COQ_BODY)
     rcq, out = C.coq_eval_raw(ctx, "replay", COQ_HEADER + "\nDefinition cases := [\n" + ";\n".join(lits) + "\n].\n" + body)
